@@ -24,6 +24,8 @@ func runC05(c *Ctx) {
 	c05Empty(c)
 	c05Stable(c)
 	c05OwnedSocket(c)
+	// a membership change racing with a dispatch must not deadlock the listener (rule "lock-order", shared with C09)
+	c09LockOrder(c)
 }
 
 // c05Stable: between membership changes nobody reorders or overwrites the rotation: only AddBackend/RemoveBackend
@@ -106,6 +108,36 @@ func c05OwnedSocket(c *Ctx) {
 	}
 	if n < 4 {
 		c.undecided(rule, "floor", "-", fmt.Sprintf("only %d stores of backend connections found (expected >= 4)", n))
+	}
+	// a UDP backend is written to through an unconnected socket: ListenUDP + WriteToUDP(data, backendAddr). On a
+	// connected socket (DialUDP + Write) the ICMP "port unreachable" answering one datagram makes the NEXT Write fail
+	// without sending, so a backend that was down for one turn loses its following turn as well.
+	for _, fn := range w.All {
+		for _, st := range w.fieldStores(fn, "UDPBackend.udpConn") {
+			cc, _ := callOfResult(st.Val)
+			if cc == nil {
+				continue // judged above
+			}
+			c.check(w.calleeName(cc) == "net.ListenUDP", rule, "UDPBackend.udpConn/unconnected@"+w.fname(fn), w.ipos(st), "the backend socket is unconnected (net.ListenUDP)", "the UDP backend's socket is created by "+w.calleeName(cc)+", not net.ListenUDP: on a connected socket an ICMP error for one datagram is reported by the next Write, which then sends nothing - a backend that was unreachable for one turn loses its next turn too")
+		}
+	}
+	if f := c.fn(rule, "(*UDPBackend).Send"); f != nil {
+		okW, nW := false, 0
+		for _, cs := range w.callsIn(f) {
+			if !strings.HasPrefix(cs.Name, "(*net.UDPConn).") && !strings.HasPrefix(cs.Name, "(*net.conn).") {
+				continue
+			}
+			if !strings.Contains(cs.Name, "Write") {
+				continue
+			}
+			nW++
+			if cs.Name == "(*net.UDPConn).WriteToUDP" {
+				if b, ok := isLoadOf(callArg(cs.In, 1), "UDPBackend.backendAddr"); ok && isParam(f, b, 0) {
+					okW = true
+				}
+			}
+		}
+		c.check(okW && nW == 1, rule, "(*UDPBackend).Send/write-to", w.pos(f.Pos()), "one WriteToUDP(data, backendAddr)", "the UDP backend does not send with exactly one WriteToUDP(data, b.backendAddr) on its unconnected socket")
 	}
 }
 
@@ -191,6 +223,7 @@ func c05Lockset(c *Ctx) {
 }
 
 func c05Paired(c *Ctx) {
+	c19NotifyCallers(c, "paired-update")
 	w := c.w
 	rule := "paired-update"
 	if f := c.fn(rule, "(*RoundRobinBackend).AddBackend"); f != nil {
